@@ -15,8 +15,26 @@ import (
 // text; only implications are required (accept => valid, valid => not branded invalid,
 // valid and relevant => accept), plus history independence against a fresh validator.
 type validatorOracle struct {
-	w   *World
-	pmm *pmsg.PartialMessageManager
+	w      *World
+	pmm    *pmsg.PartialMessageManager
+	nested *gpbft.GMessage // message that was validated nested inside the current delivery's validation
+}
+
+// beforeValidate may arm the verifier seam so that a second validation (of a corrupted twin)
+// runs in the middle of the delivery's own validation: the deterministic counterpart of two
+// goroutines validating concurrently.
+func (vo *validatorOracle) beforeValidate(to *Member, msg *gpbft.GMessage) {
+	w := vo.w
+	if w.prop != "C05" || len(msg.Signature) == 0 || !w.c.Chance(80) {
+		return
+	}
+	twin := copyMsg(msg)
+	twin.Signature[w.c.Intn(len(twin.Signature))] ^= 0x20
+	w.verifyHook = func() {
+		w.r.Fault("interleaved_validation")
+		_, _ = to.part.ValidateMessage(w.ctx, cloneOrSame(twin))
+		vo.nested = twin
+	}
 }
 
 func newValidatorOracle(w *World) *validatorOracle {
@@ -199,6 +217,16 @@ func (vo *validatorOracle) judge(to *Member, m *gpbft.GMessage, cls string, verr
 			what, to.ID, cur.ID, cur.Round, cur.Phase, cls, fcls, msgStr(m))
 		return
 	}
+	// the same on the partial path (the form in which messages normally arrive)
+	if p := vo.strip(m); p != nil {
+		_, werr := to.part.PartiallyValidateMessage(w.ctx, p)
+		_, ferr2 := vo.fresh(to).PartiallyValidateMessage(w.ctx, vo.strip(m))
+		if errClass(werr) != errClass(ferr2) {
+			w.fail("C05", "verdict_depends_on_history", "partial:"+errClass(werr)+"/"+errClass(ferr2), "%s: partial validation by participant %d says %q, a validator with an empty cache says %q for %s",
+				what, to.ID, errClass(werr), errClass(ferr2), msgStr(m))
+			return
+		}
+	}
 	valid, known, why := vo.refValid(m)
 	if !known {
 		return
@@ -268,7 +296,17 @@ func (vo *validatorOracle) forge(m *gpbft.GMessage) (*gpbft.GMessage, string) {
 		}
 		return nil
 	}
-	switch c.Intn(18) {
+	switch c.Intn(19) {
+	case 18:
+		// the observed justification is borrowed for a different step of the same value
+		if x.Justification == nil || x.Vote.Value.IsZero() {
+			return nil, ""
+		}
+		x.Vote.Phase = []gpbft.Phase{gpbft.DECIDE_PHASE, gpbft.COMMIT_PHASE, gpbft.CONVERGE_PHASE, gpbft.PREPARE_PHASE}[c.Intn(4)]
+		if x.Vote.Phase == gpbft.DECIDE_PHASE {
+			x.Vote.Round = 0
+		}
+		what = "justification borrowed for another step"
 	case 0:
 		x.Sender = gpbft.ActorID(len(w.members) + 5 + c.Intn(3))
 		byzSender = nil
@@ -278,7 +316,11 @@ func (vo *validatorOracle) forge(m *gpbft.GMessage) (*gpbft.GMessage, string) {
 			if _, in := info.Table.Lookup[mm.ID]; in && info.Scaled[mm.ID] == 0 {
 				x.Sender = mm.ID
 				byzSender = nil
-				what = "sender with zero scaled power"
+				what = "committee member with zero scaled power, correctly signed by its own key"
+				// validity test message (not an adversary action): signed with that member's key
+				if sig, err := w.sig.Sign(w.ctx, mm.Pub, x.Vote.MarshalForSigning(w.nn)); err == nil {
+					x.Signature = sig
+				}
 			}
 		}
 		if what == "" {
@@ -415,6 +457,16 @@ func (vo *validatorOracle) sample(to *Member, dl *delivery, msg *gpbft.GMessage,
 	w := vo.w
 	switch w.prop {
 	case "C05":
+		if vo.nested != nil {
+			// a second validation ran inside this one's signature check (interleaved validations)
+			x := vo.nested
+			vo.nested = nil
+			_, verr := to.part.ValidateMessage(w.ctx, cloneOrSame(x))
+			vo.judge(to, x, errClass(verr), verr, "message validated while another validation was in flight")
+			if w.viol != nil {
+				return
+			}
+		}
 		vo.judge(to, msg, errClass(err), err, "delivered message")
 		if w.viol != nil || !w.c.Chance(250) {
 			return
@@ -505,6 +557,15 @@ func (vo *validatorOracle) twoStage(to *Member, m *gpbft.GMessage) {
 		}
 		return nil
 	}
+	// the original arrives first, as it does in real traffic (warms the shared caches)
+	if base != m && !orig.IsZero() {
+		if p := vo.strip(m); p != nil {
+			if pv, err := to.part.PartiallyValidateMessage(w.ctx, p); err == nil {
+				vo.complete(p, orig)
+				_, _ = to.part.FullyValidateMessage(w.ctx, pv)
+			}
+		}
+	}
 	trials := 1 + c.Intn(4)
 	for t := 0; t < trials && w.viol == nil; t++ {
 		// announced key
@@ -556,6 +617,15 @@ func (vo *validatorOracle) twoStage(to *Member, m *gpbft.GMessage) {
 		// completed message for the one-shot path
 		full := vo.strip(base)
 		full.VoteValueKey = k
+		if p.Justification != nil && c.Chance(250) {
+			// a faulty sender controls the wire form: the stripped justification carries a chain
+			if tv := alt(); tv != nil {
+				jp, jf := *p.Justification, *full.Justification
+				jp.Vote.Value, jf.Vote.Value = tv, tv
+				p.Justification, full.Justification = &jp, &jf
+				cWhat += ", justification value on the wire not empty"
+			}
+		}
 		vo.complete(full, cc)
 		oneShot := func() bool {
 			_, err := to.part.ValidateMessage(w.ctx, cloneOrSame(full.GMessage))
